@@ -58,6 +58,18 @@ fn real_main() {
                 Some("thorough") => Tier::Thorough,
                 _ => usage(),
             };
+            // a check that does not finish (the subject hangs in a check that has no per-input watchdog - only C07
+            // decides hangs - or the harness does) ends as a machinery exit instead of running forever
+            let limit: u64 = std::env::var("VERIF_WATCHDOG_S").ok().and_then(|s| s.parse().ok()).unwrap_or(match tier {
+                Tier::Quick => 3600,
+                Tier::Thorough => 12 * 3600,
+            });
+            let idw = id.clone();
+            std::thread::spawn(move || {
+                std::thread::sleep(std::time::Duration::from_secs(limit));
+                println!("MACHINERY-ERROR check {idw} did not finish within {limit} s (VERIF_WATCHDOG_S): a hang of generate in a check without a per-input watchdog (C07 decides hangs), or of the harness");
+                std::process::exit(2);
+            });
             let ctx = Ctx::new(&id, tier);
             let outcome = match id.as_str() {
                 "C18" => c18::run(&ctx),
@@ -87,6 +99,7 @@ fn real_main() {
             c07::child_family(args.get(2).map(|s| s.as_str()).unwrap_or(""), tier, args.get(4).map(|s| s.as_str()));
         }
         Some("c07-probe") => c07::child_probe(args.get(2).and_then(|s| s.parse().ok()).unwrap_or(usize::MAX)),
+        Some("c07-growth") => c07::child_growth(args.get(2).and_then(|s| s.parse().ok()).unwrap_or(usize::MAX), args.get(3).and_then(|s| s.parse().ok()).unwrap_or(0)),
         Some("c07-one") => c07::child_one(args.get(2).map(|s| s.as_str()).unwrap_or("")),
         Some("c14-history") => c14::child_history(&args[2..]),
         Some("scaled-report") => {
